@@ -195,7 +195,7 @@ class Check:
             if b.startswith("Closed"):
                 ax = []
             else:
-                ax = re.findall(r"^([A-Za-z_][\w.']*)\s*:", b, flags=re.M)
+                ax = [a for a in re.findall(r"^([A-Za-z_][\w.']*)\s*:", b, flags=re.M) if a != "Axioms"]
             self.axioms[f"#{i}"] = sorted(set(ax))
 
     # ------------------------------------------------------------------ correspondence
